@@ -5,7 +5,7 @@ namespace GoLevel.Locks
 open CompErr
 set_option linter.unusedSimpArgs false
 
-theorem step_pinvC (s t : St) (f : Bool) (cfg : Cfg) (hfx : Fixed3 cfg) (hm : cfg.m = .asCoded)
+theorem step_pinvC (s t : St) (f : Bool) (cfg : Cfg) (hfx : Fixed3 cfg) (hm : cfg.m = .asCoded cfg.closeSel)
     (h4 : cfg.setReadOnlyReleasesOnClose = true ∨ NoSR s) (h : Step cfg f s t) (inv : PInvC s) : PInvC t := by
   unfold PInvC at *
   obtain ⟨h6, h7, h8⟩ := inv
@@ -443,6 +443,13 @@ theorem step_pinvC (s t : St) (f : Bool) (cfg : Cfg) (hfx : Fixed3 cfg) (hm : cf
     have l3 := le_tot clPreW _ _ _ hi
     (try simp only [St.setDone, St.setBg, ↓reduceIte, Bool.false_eq_true, Bool.and_false, Bool.and_true, Bool.false_and, Bool.true_and]) <;> (repeat' split) <;> simp_all [tot_set_eq _ _ _ _ _ hi, tot_ackWs_srw', tot_ackWs_lgw, tot_ackWs_clall, tot_ackWs_clpre, b2n_true, b2n_false, clearW_idle, clearW_exited, clearW_parked, clearW_eq_exited, clearW_eq_parked, srW, lgW, clAllW, clPreW, St.bg, onOk, onErr, selNext, afterSetErr, srAllW, nextC, roSets] <;> (try omega)
   | clAcq _ i hi ht =>
+    clear h4
+    have l0 := le_tot srW _ _ _ hi
+    have l1 := le_tot lgW _ _ _ hi
+    have l2 := le_tot clAllW _ _ _ hi
+    have l3 := le_tot clPreW _ _ _ hi
+    (try simp only [St.setDone, St.setBg, ↓reduceIte, Bool.false_eq_true, Bool.and_false, Bool.and_true, Bool.false_and, Bool.true_and]) <;> (repeat' split) <;> simp_all [tot_set_eq _ _ _ _ _ hi, tot_ackWs_srw', tot_ackWs_lgw, tot_ackWs_clall, tot_ackWs_clpre, b2n_true, b2n_false, clearW_idle, clearW_exited, clearW_parked, clearW_eq_exited, clearW_eq_parked, srW, lgW, clAllW, clPreW, St.bg, onOk, onErr, selNext, afterSetErr, srAllW, nextC, roSets] <;> (try omega)
+  | clAcqKept _ i hi he hk hs =>
     clear h4
     have l0 := le_tot srW _ _ _ hi
     have l1 := le_tot lgW _ _ _ hi
